@@ -1,6 +1,7 @@
 package main
 
 import (
+	"os"
 	"fmt"
 	"go/token"
 	"go/types"
@@ -102,6 +103,7 @@ func nodeKinds(p *Program) (map[string]bool, error) {
 
 func reachableRepoFuncs(p *Program, roots []*ssa.Function) map[*ssa.Function]bool {
 	seen := map[*ssa.Function]bool{}
+	seenGlobalPkg := map[*ssa.Package]bool{}
 	var visit func(f *ssa.Function)
 	visit = func(f *ssa.Function) {
 		if f == nil || seen[f] || f.Blocks == nil || f.Pkg == nil || !strings.HasPrefix(f.Pkg.Pkg.Path(), modulePath) {
@@ -123,6 +125,27 @@ func reachableRepoFuncs(p *Program, roots []*ssa.Function) map[*ssa.Function]boo
 					}
 					if mc, ok := (*op).(*ssa.MakeClosure); ok {
 						visit(mc.Fn.(*ssa.Function))
+					}
+					// a package-level variable of the module: the functions its package initialiser stores anywhere
+					// (dispatch tables such as the state → transition function table are called through it)
+					if gl, ok := (*op).(*ssa.Global); ok && gl.Pkg != nil && strings.HasPrefix(gl.Pkg.Pkg.Path(), modulePath) && !seenGlobalPkg[gl.Pkg] {
+						if holdsFuncs(gl.Type()) {
+							seenGlobalPkg[gl.Pkg] = true
+							if initFn := gl.Pkg.Func("init"); initFn != nil {
+								for _, ib := range initFn.Blocks {
+									for _, ii := range ib.Instrs {
+										if st, ok := ii.(*ssa.Store); ok {
+											switch y := st.Val.(type) {
+											case *ssa.Function:
+												visit(y)
+											case *ssa.MakeClosure:
+												visit(y.Fn.(*ssa.Function))
+											}
+										}
+									}
+								}
+							}
+						}
 					}
 				}
 			}
@@ -471,6 +494,114 @@ func runC08(p *Program, r *Report) {
 		}
 	}
 	r.Analysed["constant_index_sites"] = nc
+	// ---- R9 an index tested against the length with the wrong comparison ---------------------------
+	// x[e] under a test "e <= len(x)" (and no stronger one): the code shows that it believes the index needs a
+	// bounds test, and the test it makes admits e == len(x).
+	nw := 0
+	for _, f := range fl {
+		if f.Pkg == nil || (f.Pkg != tsp && f.Pkg.Pkg.Path() != pkgUtil) {
+			continue
+		}
+		for _, b := range f.Blocks {
+			for _, in := range b.Instrs {
+				var x, idx ssa.Value
+				switch y := in.(type) {
+				case *ssa.IndexAddr:
+					x, idx = y.X, y.Index
+				case *ssa.Lookup:
+					if isStringish(y.X.Type()) {
+						x, idx = y.X, y.Index
+					}
+				}
+				if x == nil {
+					continue
+				}
+				if _, isConst := constInt(idx); isConst {
+					continue
+				}
+				if _, isSlice := x.Type().Underlying().(*types.Slice); !isSlice && !isStringish(x.Type()) {
+					continue
+				}
+				weak, strong := false, false
+				if os.Getenv("R9_DEBUG") != "" && strings.Contains(f.Name(), "eatTagName") {
+					fmt.Println("R9 site", in, "guards", len(GuardsOf(b)))
+				}
+				for _, g := range GuardsOf(b) {
+					bo, ok := g.Cond.(*ssa.BinOp)
+					if !ok {
+						continue
+					}
+					l, rr, op := bo.X, bo.Y, bo.Op
+					if a, ok := isLenOf(l); ok && a == x {
+						// len(x) op e  ->  e op' len(x)
+						l, rr = rr, l
+						switch op {
+						case token.GTR:
+							op = token.LSS
+						case token.GEQ:
+							op = token.LEQ
+						case token.LSS:
+							op = token.GTR
+						case token.LEQ:
+							op = token.GEQ
+						}
+					}
+					a, ok := isLenOf(rr)
+					if !ok || a != x || !sameIntExpr(l, idx, 0) {
+						continue
+					}
+					if !g.Pol {
+						switch op {
+						case token.GTR:
+							op = token.LEQ
+						case token.GEQ:
+							op = token.LSS
+						case token.LSS:
+							op = token.GEQ
+						case token.LEQ:
+							op = token.GTR
+						}
+					}
+					switch op {
+					case token.LSS:
+						strong = true
+					case token.LEQ:
+						weak = true
+					}
+				}
+				if weak || strong {
+					nw++
+				}
+				if weak && !strong {
+					name := strings.TrimPrefix(fnName(f), pkgTemplate+".")
+					r.Viol("C08.R9", "index-tested-with-leq:"+name, p.Pos(in.Pos()), "the index is tested against the length with <= before it is used: for index == len the access panics with an index out of range (reachable from the total API; a text node that ends right at this position triggers it)", "")
+				}
+			}
+		}
+	}
+	if nw > 0 {
+		r.OK("C08.R9", "template#indices-tested-against-length", "", fmt.Sprintf("%d variable indices are used under a test of that same index against the length; none of the tests admits index == length", nw))
+	}
+}
+
+// sameIntExpr: a and b are the same integer expression (the same value, or the same operator on the same operands).
+func sameIntExpr(a, b ssa.Value, depth int) bool {
+	if a == b {
+		return true
+	}
+	if depth > 3 {
+		return false
+	}
+	if ka, ok := constInt(a); ok {
+		kb, ok2 := constInt(b)
+		return ok2 && ka == kb
+	}
+	x, ok1 := a.(*ssa.BinOp)
+	y, ok2 := b.(*ssa.BinOp)
+	if ok1 && ok2 && x.Op == y.Op {
+		return sameIntExpr(x.X, y.X, depth+1) && sameIntExpr(x.Y, y.Y, depth+1)
+	}
+	return false
 }
 
 // lengthEstablished: on every path to block b the slice or string x is known to have more than k elements.
@@ -951,4 +1082,34 @@ func storesToFieldIn(fn *ssa.Function, fa *ssa.FieldAddr) bool {
 		}
 	}
 	return false
+}
+
+// holdsFuncs: values of type t (a pointer to a package-level variable's type) can hold function values.
+func holdsFuncs(t types.Type) bool {
+	var walk func(t types.Type, depth int) bool
+	walk = func(t types.Type, depth int) bool {
+		if depth > 4 {
+			return false
+		}
+		switch u := t.Underlying().(type) {
+		case *types.Signature:
+			return true
+		case *types.Pointer:
+			return walk(u.Elem(), depth+1)
+		case *types.Array:
+			return walk(u.Elem(), depth+1)
+		case *types.Slice:
+			return walk(u.Elem(), depth+1)
+		case *types.Map:
+			return walk(u.Elem(), depth+1)
+		case *types.Struct:
+			for i := 0; i < u.NumFields(); i++ {
+				if walk(u.Field(i).Type(), depth+1) {
+					return true
+				}
+			}
+		}
+		return false
+	}
+	return walk(t, 0)
 }
